@@ -9,6 +9,8 @@ use crate::verif::refcodec::transport as reftr;
 #[derive(Clone, Debug)]
 pub struct RxFragment {
     pub t_ms: u64,
+    /// world-wide sequence number of the write that completed this fragment
+    pub order: u64,
     pub src: u16,
     pub dest: u16,
     pub bytes: Vec<u8>,
@@ -23,7 +25,7 @@ pub struct PeerLink {
     pub is_master: bool,
     tseq: u8,
     rx: Vec<u8>,
-    rx_times: Vec<(usize, u64)>,
+    rx_times: Vec<(usize, u64, u64)>,
     consumed: usize,
     reasm: reftr::Reassembler,
     /// non-data link frames seen from the other side, with time
@@ -100,8 +102,8 @@ impl PeerLink {
 
     /// drain everything the other side wrote and return the application fragments completed by it
     pub fn poll(&mut self, from_other: &ChanRef) -> Vec<RxFragment> {
-        for (t, data) in io::chan_drain(from_other) {
-            self.rx_times.push((self.rx.len(), t));
+        for (t, order, data) in io::chan_drain_ordered(from_other) {
+            self.rx_times.push((self.rx.len(), t, order));
             self.rx.extend_from_slice(&data);
         }
         let mut out = Vec::new();
@@ -113,13 +115,13 @@ impl PeerLink {
             match reflink::candidate(rest) {
                 reflink::Candidate::Frame(f, len) => {
                     let start = self.consumed;
-                    let t = self
+                    let (t, order) = self
                         .rx_times
                         .iter()
                         .rev()
-                        .find(|(off, _)| *off <= start)
-                        .map(|x| x.1)
-                        .unwrap_or(0);
+                        .find(|(off, _, _)| *off <= start)
+                        .map(|x| (x.1, x.2))
+                        .unwrap_or((0, 0));
                     self.consumed += len;
                     self.frames_seen += 1;
                     let func = f.ctrl & 0x4F;
@@ -132,6 +134,7 @@ impl PeerLink {
                                 };
                                 out.push(RxFragment {
                                     t_ms: t,
+                                    order,
                                     src,
                                     dest: f.dest,
                                     bytes,
